@@ -71,6 +71,7 @@ void RateMonitoring::initialize(const double & expectedRate)
 //-----------------------------------------------------------------------------
 double RateMonitoring::update(const Duration & duration)
 {
+  std::lock_guard<std::mutex> lock(mutex_);
   assert(windowSize_ != 0);
 
   lastPeriod_ = duration - lastDuration_.load();
@@ -99,6 +100,7 @@ double RateMonitoring::getRate()const
 //-----------------------------------------------------------------------------
 bool RateMonitoring::timeout(const Duration & duration)
 {
+  std::lock_guard<std::mutex> lock(mutex_);
   if (!periods_.empty() &&
     durationToSecond(duration - lastDuration_.load()) > 0.5)
   {
